@@ -1,12 +1,255 @@
 /-
-C15 — Range responses contain exactly the requested bytes (work in progress: first obligations).
+C15 — Range responses contain exactly the requested bytes.
+
+"When Squid answers a Range request with 206, each part's Content-Range and body bytes match the stated slice of the full
+representation. The parts cover the requested satisfiable ranges. Otherwise Squid sends the complete representation with 200,
+or 416 when nothing is satisfiable."
+
+Partial: the theorems are about the model of the response side (SquidModel/RangePack: `buildRangeHeader` guards,
+`canonize`/`isComplex`, the `range_iter` machine `canPackMoreRanges`/`getNextRangeOffset`/`lengthToSend`/`packRange`
+under an adversarial store, `clientPackRangeHdr`/`clientPackTermBound`/`mRangeCLen`); the rebuilt binary is tied to that model
+by end-to-end scenario correspondence (props/C15.py). Squid never generates 416 itself (it ignores an unsatisfiable Range and
+sends 200, which the statement allows); 416 only occurs relayed from an origin.
+
+The last sentence is FALSE of the real code in one region (see `ignored_wire_counterexample`): the full statement
+
+  theorem ignored_wire_full : runIgnored body L m sched = .ok body          -- for all L, m
+
+does not hold; `ignored_wire_full_partial` proves it outside the region `0 < L < m` (a positive lowest range offset together
+with body bytes in the first store answer, i.e. objects swapped in from disk), and `ignored_wire_char` says what is sent inside it.
 -/
-import SquidModel.RangePack.Respond
+import SquidModel.RangePack.RespondLemmas
 
 namespace SquidModel.C15
-open SquidModel.RangePack
+open SquidModel SquidModel.RangePack SquidModel.Gen
 
-/-- `mergeWith` is compiled out: canonisation keeps the surviving specs as they are, in request order. -/
-theorem merging_disabled : SquidModel.Gen.RangePackConsts.mergingEnabled = false := by decide
+/-! ### 206: the parts are the requested satisfiable ranges -/
+
+/-- The specs Squid serves are, in request order, exactly the satisfiable parts (RFC 9110 §14.1.2, `rfcPart`, defined without
+reference to the canonisation code) of the byte-range-specs of the request; unsatisfiable ones are dropped, nothing is added,
+merged or reordered. Holds for every parsed Range header and every object length. -/
+theorem parts_are_requested_satisfiable (v : Bytes) (raw : List RSpec) (n : Nat) (hp : parseRange v = some raw) :
+    (canonize raw n).map RSpec.toC = raw.filterMap (rfcPart n) :=
+  canonize_eq_rfc raw n (parseRange_valid v raw hp)
+
+/-- Coverage: a byte position lies in some part of the 206 iff it lies in the satisfiable part of some requested spec. -/
+theorem parts_cover_requested (v : Bytes) (raw : List RSpec) (n i : Nat) (hp : parseRange v = some raw) :
+    (∃ c ∈ (canonize raw n).map RSpec.toC, c.off ≤ i ∧ i < c.off + c.len) ↔
+    (∃ s ∈ raw, ∃ p, rfcPart n s = some p ∧ p.off ≤ i ∧ i < p.off + p.len) := by
+  rw [parts_are_requested_satisfiable v raw n hp]
+  constructor
+  · rintro ⟨c, hc, h1, h2⟩
+    obtain ⟨s, hs, hsc⟩ := List.mem_filterMap.1 hc
+    exact ⟨s, hs, c, hsc, h1, h2⟩
+  · rintro ⟨s, hs, p, hp', h1, h2⟩
+    exact ⟨p, List.mem_filterMap.2 ⟨s, hs, hp'⟩, h1, h2⟩
+
+/-- Every part that is served is non-empty and lies inside the object. -/
+theorem parts_inside_object (ctx : Ctx) (raw cs : List RSpec) (n : Nat) (hn : ctx.contentLength = n)
+    (h : buildRangeHeader ctx raw = .ok cs) : ∀ c ∈ cs.map RSpec.toC, 0 < c.len ∧ c.off + c.len ≤ n := by
+  obtain ⟨_, _, hcs, _, _, _⟩ := buildRangeHeader_ok ctx raw cs h
+  intro c hc
+  obtain ⟨r, hr, rfl⟩ := List.mem_map.1 hc
+  rw [hcs, hn] at hr
+  have := canonize_all_canonical raw n r hr
+  unfold RSpec.Canonical at this
+  simp only [RSpec.toC]
+  omega
+
+/-! ### 206: the body is exactly the slices, for every store delivery schedule -/
+
+/-- **Main theorem.** Whenever `buildRangeHeader` decides to serve ranges (for any reply context, any parsed Range header, any
+object), the packing machine — run against ANY first store answer (`m` body bytes arriving with the headers) and ANY schedule of
+later store deliveries (1..HTTP_REQBUF_SZ bytes each) — hits no assertion, terminates, and writes exactly: the slice itself for
+one part; for several parts, each part header followed by exactly that part's bytes of the object, in order, then the
+terminating boundary. Nothing else, nothing missing. -/
+theorem honoured_wire_exact (ctx : Ctx) (v : Bytes) (raw cs : List RSpec) (body : Bytes) (hdrOf : CSpec → Bytes) (term : Bytes)
+    (m : Nat) (sched : Nat → Nat)
+    (hp : parseRange v = some raw) (hlen : ctx.contentLength = body.length) (h : buildRangeHeader ctx raw = .ok cs) :
+    runHonoured hdrOf term body (cs.map RSpec.toC) (lowestOffset raw 0).toNat m sched
+      = .ok (expectedWire hdrOf term body (cs.map RSpec.toC)) := by
+  obtain ⟨_, _, hcs, hne, hcx, _⟩ := buildRangeHeader_ok ctx raw cs h
+  have hv := parseRange_valid v raw hp
+  apply runHonoured_exact
+  · intro he
+    exact hne (List.map_eq_nil_iff.1 he)
+  · have hall : ∀ c ∈ cs, c.Canonical body.length := by
+      rw [hcs, hlen]; exact canonize_all_canonical raw body.length
+    exact chain_of_not_complex body.length cs 0 hall hcx
+  · rw [hcs, hlen]
+    exact lowestOffset_bound raw body.length hv
+
+/-- Content-Length of the 206 (`prepPartialResponseGeneration`/`mRangeCLen`) is exactly the number of body bytes written. -/
+theorem content_length_exact (ctx : Ctx) (raw cs : List RSpec) (body key : Bytes) (ctype : Option Bytes)
+    (hlen : ctx.contentLength = body.length) (h : buildRangeHeader ctx raw = .ok cs) :
+    actualCLen (boundary key) ctype body.length (cs.map RSpec.toC) =
+      (expectedWire (partHdr (boundary key) ctype body.length) (termBound (boundary key)) body (cs.map RSpec.toC)).length := by
+  obtain ⟨_, _, hcs, hne, hcx, _⟩ := buildRangeHeader_ok ctx raw cs h
+  have hall : ∀ c ∈ cs, c.Canonical body.length := by
+    rw [hcs, hlen]; exact canonize_all_canonical raw body.length
+  have hch := chain_of_not_complex body.length cs 0 hall hcx
+  generalize cs.map RSpec.toC = specs at hch
+  match specs, hch with
+  | [], _ => simp [actualCLen, expectedWire, mRangeCLen, partsWire]
+  | [c], hch =>
+    simp only [Chain] at hch
+    simp [actualCLen, expectedWire, slice_length body c.off c.len hch.2.2.1]
+  | c :: c' :: rest, hch =>
+    simp only [actualCLen, expectedWire, List.length_append, mRangeCLen_eq, partsWire_length _ body _ 0 hch]
+
+/-! ### otherwise: 200 with the complete representation (and never a 416 of Squid's own) -/
+
+/-- What is sent when `buildRangeHeader` drops the ranges, for every first store answer and delivery schedule: the first buffer
+as `processReplyAccessResult` cut it, then the object from `out.offset` = that buffer's length. -/
+theorem ignored_wire_char (body : Bytes) (L m : Nat) (sched : Nat → Nat) :
+    runIgnored body L m sched = .ok (firstBuffer body L m ++ body.drop (firstBuffer body L m).length) :=
+  runIgnored_eq body L m sched
+
+/-- The complete object is sent when the request-time offset is 0 (a suffix spec, or a first range at 0) or the first store
+answer does not reach beyond it — in particular always for memory hits and misses (`m = 0`). -/
+theorem ignored_wire_full_partial (body : Bytes) (L m : Nat) (sched : Nat → Nat) (h : L = 0 ∨ m ≤ L) :
+    runIgnored body L m sched = .ok body := by
+  rw [runIgnored_eq, firstBuffer_prefix body L m h]
+
+/-- The real code violates "otherwise the complete representation" inside the excluded region: 10-byte object swapped in from
+disk (all 10 bytes arrive with the headers), `Range: bytes=2-5,4-6` (complex, so ignored; lowest offset 2): the 200 carries
+bytes 2..9 followed by bytes 8..9 — ten bytes, not the object. Confirmed on the binary (corpus/C15/known.txt). -/
+theorem ignored_wire_counterexample :
+    runIgnored [0, 1, 2, 3, 4, 5, 6, 7, 8, 9] 2 10 (fun _ => 4096) = .ok [2, 3, 4, 5, 6, 7, 8, 9, 8, 9] ∧
+    lowestOffset [⟨2, 4⟩, ⟨4, 3⟩] 0 = 2 ∧
+    buildRangeHeader ⟨true, none, none, -1, 200, false, 10, 10⟩ [⟨2, 4⟩, ⟨4, 3⟩] = .error .tooComplexRange := by
+  decide
+
+/-- Squid's own decision is binary: serve the canonical ranges (206) or ignore the header (200). With the default
+`range_offset_limit` (0) a miss is never packed by Squid, and a reply that is not a 200 is never re-packed: such replies
+(the origin's own 206 or 416) are relayed. -/
+theorem decision_never_packs_non200_or_limited_miss (ctx : Ctx) (raw cs : List RSpec) (h : buildRangeHeader ctx raw = .ok cs) :
+    ctx.status = 200 ∧ ¬ (ctx.isHit = false ∧ ctx.roffLimit = 0) := by
+  obtain ⟨h200, _, _, _, _, hlim⟩ := buildRangeHeader_ok ctx raw cs h
+  refine ⟨h200, ?_⟩
+  rintro ⟨hmiss, h0⟩
+  have := hlim hmiss
+  simp [offsetLimitExceeded, h0] at this
+
+/-- `mergeWith` is compiled out (MERGING_BREAKS_NOTHING is not defined): canonisation keeps the surviving specs as they are. -/
+theorem merging_disabled : RangePackConsts.mergingEnabled = false := by decide
+
+/-! ### the scenario-level model used for the end-to-end correspondence -/
+
+/-- For every scenario of the rig that Squid answers from a stored 200 (miss with `range_offset_limit none`, memory hit, disk
+hit), any first store answer and delivery schedule: the model does not fail (no assertion of the C++ fires), and the reply is
+a 200 or a 206; a 206 has the requested satisfiable parts, a body that is exactly their framed slices, and an exact
+Content-Length. -/
+theorem serveStored_sound (sc : Scenario) (key : Bytes) (m : Nat) (sched : Nat → Nat) (saw : Option (Option Bytes)) :
+    ∃ r, serveStored sc key m sched saw = .ok r ∧ (r.status = 200 ∨ r.status = 206) ∧
+      (r.status = 206 → ∃ raw, sc.range.bind parseRange = some raw ∧ r.parts = raw.filterMap (rfcPart sc.n) ∧ r.parts ≠ [] ∧
+        (sc.isHead = false →
+          r.body = expectedWire (partHdr (boundary key) sc.ctype sc.n) (termBound (boundary key)) (objBody sc.n sc.seed) r.parts ∧
+          r.contentLength = some r.body.length)) := by
+  simp only [serveStored]
+  cases hr : sc.range.bind parseRange with
+  | none => exact ⟨_, rfl, Or.inl rfl, fun h => by simp [plainReply] at h⟩
+  | some raw =>
+    simp only
+    split
+    · exact ⟨_, rfl, Or.inl rfl, fun h => by simp [plainReply] at h⟩
+    · obtain ⟨v, hv, hpv⟩ : ∃ v, sc.range = some v ∧ parseRange v = some raw := by
+        cases hsr : sc.range with
+        | none => simp [hsr] at hr
+        | some v => exact ⟨v, rfl, by simpa [hsr] using hr⟩
+      cases hb : buildRangeHeader _ raw with
+      | error e =>
+        simp only
+        rw [runIgnored_eq]
+        exact ⟨_, rfl, Or.inl rfl, fun h => by simp [plainReply] at h⟩
+      | ok cs =>
+        simp only
+        have hlk : sc.lenKnown = true := by
+          have := (buildRangeHeader_ok _ raw cs hb).2.1
+          simp only at this
+          by_cases hk : sc.lenKnown = true
+          · exact hk
+          · simp [hk] at this
+        have hcl : ((if sc.lenKnown = true then ((objBody sc.n sc.seed).length : Int) else -1)) = ((objBody sc.n sc.seed).length : Int) := by
+          simp [hlk]
+        have hb' := hb
+        simp only [hcl] at hb'
+        have hwire := honoured_wire_exact _ v raw cs (objBody sc.n sc.seed)
+          (partHdr (boundary key) sc.ctype (objBody sc.n sc.seed).length) (termBound (boundary key))
+          (if sc.isHead = true then 0 else m) sched hpv rfl hb'
+        have hparts : cs.map RSpec.toC = raw.filterMap (rfcPart sc.n) := by
+          have h1 := (buildRangeHeader_ok _ raw cs hb').2.2.1
+          simp only at h1
+          rw [h1, objBody_length]
+          exact parts_are_requested_satisfiable v raw sc.n hpv
+        have hne : cs.map RSpec.toC ≠ [] := by
+          intro he
+          exact (buildRangeHeader_ok _ raw cs hb').2.2.2.1 (List.map_eq_nil_iff.1 he)
+        have hclen := content_length_exact _ raw cs (objBody sc.n sc.seed) key sc.ctype rfl hb'
+        cases hh : sc.isHead with
+        | true =>
+          simp only [hh, if_true]
+          exact ⟨_, rfl, Or.inr rfl, fun _ => ⟨raw, rfl, hparts, hne, fun h => by cases h⟩⟩
+        | false =>
+          simp only [hh, Bool.false_eq_true, if_false] at hwire ⊢
+          rw [hwire]
+          simp only
+          refine ⟨_, rfl, Or.inr rfl, fun _ => ⟨raw, rfl, hparts, hne, fun _ => ⟨?_, ?_⟩⟩⟩
+          · simp only [objBody_length]
+          · simp only [hclen]
+
+/-- The last sentence of the property, for the scenario-level model of all four store states of the rig (any first store answer,
+any delivery schedule): the exchange never fails, the status is 200, 206 or 416, and a 416 (only ever relayed from the origin)
+means the single requested range is unsatisfiable. -/
+theorem respond_status (sc : Scenario) (key : Bytes) (m : Nat) (sched : Nat → Nat) :
+    ∃ r, respond sc key m sched = .ok r ∧ (r.status = 200 ∨ r.status = 206 ∨ r.status = 416) ∧
+      (r.status = 416 → ∃ s, sc.range.bind parseRange = some [s] ∧ rfcPart sc.n s = none) := by
+  have hst : ∀ key m sched saw, ∃ r, serveStored sc key m sched saw = .ok r ∧ (r.status = 200 ∨ r.status = 206 ∨ r.status = 416) ∧
+      (r.status = 416 → ∃ s, sc.range.bind parseRange = some [s] ∧ rfcPart sc.n s = none) := by
+    intro key m sched saw
+    obtain ⟨r, hr, hs, _⟩ := serveStored_sound sc key m sched saw
+    refine ⟨r, hr, ?_, ?_⟩
+    · rcases hs with h | h
+      · exact Or.inl h
+      · exact Or.inr (Or.inl h)
+    · intro h; rcases hs with h' | h' <;> omega
+  unfold respond
+  cases hmode : sc.mode with
+  | miss => exact hst _ _ _ _
+  | mem => exact hst _ _ _ _
+  | disk => exact hst _ _ _ _
+  | fwd =>
+    simp only [originAnswer]
+    split
+    · rename_i s hs
+      split
+      · exact ⟨_, rfl, Or.inr (Or.inl rfl), fun h => by simp at h⟩
+      · rename_i hnone
+        refine ⟨_, rfl, Or.inr (Or.inr rfl), fun _ => ⟨s, ?_, hnone⟩⟩
+        exact ite_none_eq_some _ _ _ hs
+    · exact hst _ _ _ _
+
+/-! ### non-vacuity -/
+
+-- the RFC semantics used as reference: last 5 of 100; from 95 of 100; 10-19 of 15; beyond the end; suffix of nothing
+example : rfcPart 100 ⟨-1, 5⟩ = some ⟨95, 5⟩ := by decide
+example : rfcPart 100 ⟨95, -1⟩ = some ⟨95, 5⟩ := by decide
+example : rfcPart 15 ⟨10, 10⟩ = some ⟨10, 5⟩ := by decide
+example : rfcPart 100 ⟨100, 1⟩ = none := by decide
+example : rfcPart 100 ⟨-1, 0⟩ = none := by decide
+-- "bytes=0-1,5-" parses; "bytes=5-3" does not
+example : parseRange [98, 121, 116, 101, 115, 61, 48, 45, 49, 44, 53, 45] = some [⟨0, 2⟩, ⟨5, -1⟩] := by decide
+example : parseRange [98, 121, 116, 101, 115, 61, 53, 45, 51] = none := by decide
+-- a request that is served: 0-1 and 5- of a 10-byte object on a hit; the machine writes header, bytes, header, bytes, terminator
+example : buildRangeHeader ⟨true, none, none, -1, 200, false, 10, 10⟩ [⟨0, 2⟩, ⟨5, -1⟩] = .ok [⟨0, 2⟩, ⟨5, 5⟩] := by decide
+example : runHonoured (fun c => [255, UInt8.ofNat c.off]) [254] [10, 11, 12, 13, 14, 15, 16, 17, 18, 19] [⟨0, 2⟩, ⟨5, 5⟩] 0 0 (fun _ => 3)
+    = .ok [255, 0, 10, 11, 255, 5, 15, 16, 17, 18, 19, 254] := by decide
+-- the same through a disk-style first answer (7 body bytes with the headers) and 1-byte deliveries
+example : runHonoured (fun c => [255, UInt8.ofNat c.off]) [254] [10, 11, 12, 13, 14, 15, 16, 17, 18, 19] [⟨0, 2⟩, ⟨5, 5⟩] 0 7 (fun _ => 1)
+    = .ok [255, 0, 10, 11, 255, 5, 15, 16, 17, 18, 19, 254] := by decide
+-- the guards: out-of-order specs are refused, unsatisfiable ones too, a 206 from upstream is not re-packed
+example : buildRangeHeader ⟨true, none, none, -1, 200, false, 10, 10⟩ [⟨5, 2⟩, ⟨0, 2⟩] = .error .tooComplexRange := by decide
+example : buildRangeHeader ⟨true, none, none, -1, 200, false, 10, 10⟩ [⟨10, -1⟩] = .error .canonFailed := by decide
+example : buildRangeHeader ⟨false, none, none, 0, 206, true, 10, 10⟩ [⟨0, 2⟩] = .error .tooComplexResponse := by decide
 
 end SquidModel.C15
